@@ -886,7 +886,11 @@ func (hlv *HybridLogicalVector) UpdateHistory(incomingHLV *HybridLogicalVector) 
 
 	// CV
 	if incomingHLV.SourceID != "" {
-		hlv.AddVersionToPV(incomingHLV.SourceID, incomingHLV.Version) // CV
+		if hlv.AddVersionToPV(incomingHLV.SourceID, incomingHLV.Version) == versionInMVOlder {
+			// the incoming cv is newer than our merge version for that source: the merge versions are superseded
+			hlv.InvalidateMV()
+			hlv.AddVersionToPV(incomingHLV.SourceID, incomingHLV.Version)
+		}
 	}
 
 	invalidateMV := false
